@@ -338,6 +338,13 @@ func Main(engineName string, engines map[string]Engine) int {
 			break
 		}
 		seed := SeedFor(base, i)
+		if one := env("VERIF_ONE_SEED", ""); one != "" { // debugging aid: explore exactly this run seed
+			u, err := strconv.ParseUint(one, 10, 64)
+			if err != nil {
+				panic(err)
+			}
+			seed, to = u, i
+		}
 		c := NewExplore(seed)
 		arm(seed)
 		t0 := time.Now()
